@@ -112,10 +112,10 @@ func (r *Report) control(name string, ok bool, detail string) {
 	}
 }
 
-func (r *Report) notCovered(s string)  { r.NotCovered = append(r.NotCovered, s) }
-func (r *Report) explain(s string)     { r.Explain = append(r.Explain, s) }
-func (r *Report) assume(s string)      { r.Assume = append(r.Assume, s) }
-func (r *Report) analysed(fn string)   { r.Funcs[fn] = true }
+func (r *Report) notCovered(s string) { r.NotCovered = append(r.NotCovered, s) }
+func (r *Report) explain(s string)    { r.Explain = append(r.Explain, s) }
+func (r *Report) assume(s string)     { r.Assume = append(r.Assume, s) }
+func (r *Report) analysed(fn string)  { r.Funcs[fn] = true }
 
 // ---------------------------------------------------------------------------
 // known findings
